@@ -250,7 +250,9 @@ func c04Reconnect() func() {
 		if err != nil {
 			return
 		}
-		gw.NextChannel = c04Channel + 1         // assigned by the reconnect
+		// the channel the reconnect is assigned: the next one, or 0 (a legal channel number)
+		next := []uint8{c04Channel + 1, 0}[mc.Choose(2, mc.Free)]
+		gw.NextChannel = next
 		before := 1 + mc.Choose(2, mc.Free)     // telegrams accepted before the reconnect
 		readFirst := mc.Choose(2, mc.Free) == 1 // the application reads one of them before the reconnect
 		ch := uint8(c04Channel)
@@ -285,7 +287,7 @@ func c04Reconnect() func() {
 			mc.Log(Note("heartbeat fails"))
 			mc.Sleep(400*ms + 350*ms + 10*ms - mc.Now())
 		}
-		ch = c04Channel + 1
+		ch = next
 		mc.Log(Note("epoch 2"))
 		inject(0)
 		inject(1)
